@@ -1,4 +1,195 @@
-pub fn main(_args: &[String]) -> i32 {
-    eprintln!("engine not built yet");
-    2
+//! C28: row commitments.  Scenarios (spec/math/LDE.tla, family commit) carry column polynomials, a list
+//! of partition options and, for each, the commitment as a TERM: ["root", rows, rowterm] with
+//! rowterm = ["he", lo, hi] (hash_elements of the row's columns lo..hi) or ["mm", [[lo, hi], ..]]
+//! (merge_many of the chunk digests) — the structure the VERIFIER's partition rule defines.  The term
+//! is evaluated with the real hasher on the rows of the real matrix and `MerkleTree::new(..).root()`,
+//! and compared with `RowMatrix::commit_to_rows(options).commitment()` /
+//! `ColMatrix::commit_to_rows().commitment()`.
+use serde_json::{json, Value};
+use wfcommon::util::{catch, read_ndjson, Out};
+use winter_air::PartitionOptions;
+use winter_crypto::{
+    hashers::{Blake3_256, Rp64_256},
+    ElementHasher, MerkleTree, VectorCommitment,
+};
+use winter_math::{
+    fields::{f64::BaseElement as F64, CubeExtension, QuadExtension},
+    FieldElement, StarkField,
+};
+use winter_prover::matrix::{ColMatrix, RowMatrix};
+use winter_utils::Serializable;
+
+use crate::{
+    elem::{usize_of, vec_of, Elem},
+    pool::for_each_pool,
+    with_field,
+};
+
+struct Rep {
+    calls: usize,
+    hashes: usize,
+    bad: Vec<Value>,
+}
+
+fn row_digest<H: ElementHasher, E: FieldElement<BaseField = H::BaseField>>(row: &[E], term: &Value, hashes: &mut usize) -> H::Digest {
+    let range = |v: &Value, a: usize| usize_of(&v[a]);
+    match term[0].as_str() {
+        Some("he") => {
+            *hashes += 1;
+            H::hash_elements(&row[range(term, 1)..range(term, 2)])
+        },
+        Some("mm") => {
+            let ds: Vec<H::Digest> = term[1]
+                .as_array()
+                .unwrap()
+                .iter()
+                .map(|c| {
+                    *hashes += 1;
+                    H::hash_elements(&row[range(c, 0)..range(c, 1)])
+                })
+                .collect();
+            *hashes += 1;
+            H::merge_many(&ds)
+        },
+        _ => {
+            eprintln!("commit: unknown row term {term}");
+            std::process::exit(2)
+        },
+    }
+}
+
+/// ["root", rows, rowterm] over the rows delivered by `row(i)`
+fn eval_root<'a, H, E>(term: &Value, nrows: usize, row: impl Fn(usize) -> Vec<E>, hashes: &mut usize) -> Result<H::Digest, String>
+where
+    H: ElementHasher,
+    E: FieldElement<BaseField = H::BaseField>,
+{
+    if term[0] != "root" {
+        return Err(format!("unknown commitment term {term}"));
+    }
+    if usize_of(&term[1]) != nrows {
+        return Err(format!("the matrix has {nrows} rows, the term commits to {}", term[1]));
+    }
+    let leaves: Vec<H::Digest> = (0..nrows).map(|i| row_digest::<H, E>(&row(i), &term[2], hashes)).collect();
+    let tree = MerkleTree::<H>::new(leaves).map_err(|e| format!("MerkleTree::new: {e:?}"))?;
+    Ok(*tree.root())
+}
+
+fn hex<D: Serializable>(d: &D) -> String {
+    d.to_bytes().iter().map(|b| format!("{b:02x}")).collect()
+}
+
+fn run<B, E, H>(sc: &Value, rep: &mut Rep, hname: &str)
+where
+    B: StarkField + Elem,
+    E: FieldElement<BaseField = B> + Elem,
+    H: ElementHasher<BaseField = B>,
+{
+    let blowup = usize_of(&sc["blowup"]);
+    let polys: Vec<Vec<E>> = sc["polys"].as_array().unwrap().iter().map(|c| vec_of::<E>(c)).collect();
+    let cm = ColMatrix::new(polys);
+    let lde = match catch(|| RowMatrix::<E>::evaluate_polys::<8>(&cm, blowup)) {
+        Ok(m) => m,
+        Err(p) => {
+            rep.bad.push(json!({"call": "RowMatrix::evaluate_polys::<8>", "what": "panicked", "hasher": hname, "panic": p}));
+            return;
+        },
+    };
+    for opt in sc["opts"].as_array().unwrap() {
+        let (np, rate) = (usize_of(&opt["np"]), usize_of(&opt["rate"]));
+        rep.calls += 1;
+        let shape = if opt["term"][2][0] == "he" { "single hash".to_string() } else { format!("{} chunk(s)", opt["term"][2][1].as_array().unwrap().len()) };
+        let got = match catch(|| lde.commit_to_rows::<H, MerkleTree<H>>(PartitionOptions::new(np, rate)).commitment()) {
+            Ok(c) => c,
+            Err(p) => {
+                rep.bad.push(json!({"call": "RowMatrix::commit_to_rows", "what": "panicked", "hasher": hname, "np": np, "rate": rate, "shape": shape, "panic": p}));
+                continue;
+            },
+        };
+        // the verifier's partition size, as PartitionOptions reports it
+        let ps = PartitionOptions::new(np, rate).partition_size::<E>(lde.num_cols());
+        if ps != usize_of(&opt["psize"]) {
+            rep.bad.push(json!({"call": "PartitionOptions::partition_size", "what": "value", "np": np, "rate": rate, "expected": opt["psize"], "got": ps}));
+        }
+        match eval_root::<H, E>(&opt["term"], lde.num_rows(), |i| lde.row(i).to_vec(), &mut rep.hashes) {
+            Ok(want) if want == got => {},
+            Ok(want) => rep.bad.push(json!({"call": "RowMatrix::commit_to_rows", "what": "commitment differs from the vector commitment of the verifier's row digests",
+                "hasher": hname, "np": np, "rate": rate, "shape": shape, "term": opt["term"], "expected": hex(&want), "got": hex(&got)})),
+            Err(e) => {
+                eprintln!("commit: {e}");
+                std::process::exit(2)
+            },
+        }
+    }
+    // column-major matrix: whole rows
+    rep.calls += 1;
+    match catch(|| cm.commit_to_rows::<H, MerkleTree<H>>().commitment()) {
+        Ok(got) => {
+            let k = cm.num_cols();
+            let rowf = |i: usize| {
+                let mut r = vec![E::ZERO; k];
+                cm.read_row_into(i, &mut r);
+                r
+            };
+            match eval_root::<H, E>(&sc["colterm"], cm.num_rows(), rowf, &mut rep.hashes) {
+                Ok(want) if want == got => {},
+                Ok(want) => rep.bad.push(json!({"call": "ColMatrix::commit_to_rows", "what": "commitment differs from the vector commitment of the row digests",
+                    "hasher": hname, "shape": "single hash", "expected": hex(&want), "got": hex(&got)})),
+                Err(e) => {
+                    eprintln!("commit: {e}");
+                    std::process::exit(2)
+                },
+            }
+        },
+        Err(p) => rep.bad.push(json!({"call": "ColMatrix::commit_to_rows", "what": "panicked", "hasher": hname, "panic": p})),
+    }
+}
+
+fn toy<B, E>(sc: &Value, rep: &mut Rep)
+where
+    B: StarkField + Elem,
+    E: FieldElement<BaseField = B> + Elem,
+{
+    run::<B, E, Blake3_256<B>>(sc, rep, "Blake3_256<toy>");
+}
+
+fn f64_runs(sc: &Value, rep: &mut Rep, d: usize) {
+    match d {
+        1 => {
+            run::<F64, F64, Rp64_256>(sc, rep, "Rp64_256");
+            run::<F64, F64, Blake3_256<F64>>(sc, rep, "Blake3_256<f64>");
+        },
+        2 => run::<F64, QuadExtension<F64>, Rp64_256>(sc, rep, "Rp64_256"),
+        _ => run::<F64, CubeExtension<F64>, Rp64_256>(sc, rep, "Rp64_256"),
+    }
+}
+
+pub fn main(args: &[String]) -> i32 {
+    let scenarios = read_ndjson(&args[0]);
+    let threads: Vec<usize> = args.get(1).map(|s| s.split(',').filter_map(|t| t.parse().ok()).collect()).unwrap_or_default();
+    let mut out = Out::new();
+    let (mut calls, mut bad, mut runs, mut hashes) = (0usize, 0usize, 0usize, 0usize);
+    for_each_pool(&threads, |t| {
+        runs += 1;
+        for (i, sc) in scenarios.iter().enumerate() {
+            let p = usize_of(&sc["P"]);
+            let d = usize_of(&sc["d"]);
+            let mut rep = Rep { calls: 0, hashes: 0, bad: vec![] };
+            with_field!(p, d, toy(sc, &mut rep));
+            // the same polynomials (small integers) over the 64-bit field with the Rescue hasher
+            if sc["f64"].as_bool().unwrap_or(false) {
+                f64_runs(sc, &mut rep, d);
+            }
+            calls += rep.calls;
+            hashes += rep.hashes;
+            for d in rep.bad {
+                bad += 1;
+                out.emit(&json!({"i": i, "threads": t, "detail": d}));
+            }
+        }
+    });
+    out.emit(&json!({"summary": true, "scenarios": scenarios.len(), "runs": runs, "calls": calls, "term_hashes": hashes, "mismatches": bad,
+        "concurrent": cfg!(feature = "concurrent"), "threads": threads}));
+    out.flush();
+    0
 }
